@@ -48,14 +48,17 @@ struct Opts {
     update_freq: u64,
     /// product-alphabet option set: explored with the de-duplicated search for every num_tune
     bfs_only: bool,
+    /// step size adapted with Adam instead of dual averaging
+    adam: bool,
     growth: f64,
 }
 
 impl Opts {
     fn name(&self) -> String {
         format!(
-            "{}-tune{}-ew{}-ssw{}-sf{}-esf{}-uf{}-g{}",
+            "{}{}-tune{}-ew{}-ssw{}-sf{}-esf{}-uf{}-g{}",
             if self.lowrank { "lowrank" } else { "diag" },
+            if self.adam { "-adam" } else { "" },
             self.num_tune,
             self.early_window,
             self.step_size_window,
@@ -258,7 +261,7 @@ fn adapt_options<S: std::fmt::Debug + Default>(o: &Opts, mm: S) -> EuclideanAdap
     a.mass_matrix_update_freq = o.update_freq;
     a.mass_matrix_window_growth = o.growth;
     a.step_size_settings.jitter = None;
-    a.step_size_settings.adapt_options.method = StepSizeAdaptMethod::DualAverage;
+    a.step_size_settings.adapt_options.method = if o.adam { StepSizeAdaptMethod::Adam } else { StepSizeAdaptMethod::DualAverage };
     a
 }
 
@@ -327,6 +330,9 @@ fn run_word(o: &Opts, word: &[Ev], p: &mut Partial, check_step_size: bool) -> Op
     };
     let mut r = RefSched::new(o);
     let mut da = RefDualAverage::new(0.75, 10.0, 0.05, std::f64::consts::PI, s0);
+    // with Adam the recurrence itself is C07's business (R-adam); here the real estimator is fed
+    // the statistic the schedule prescribes and must give the step size the strategy installs
+    let mut adam = nuts_rs::verif::Adam::new(nuts_rs::verif::AdamOptions::default(), s0);
     let final_start = RefSched::final_start(o);
     let mut frozen_id: Option<i64> = None;
     let mut last = (0, 0, 0, 0, true);
@@ -392,11 +398,13 @@ fn run_word(o: &Opts, word: &[Ev], p: &mut Partial, check_step_size: bool) -> Op
                 if r.research {
                     // the search picked a new initial step: re-seed the reference from it
                     da = RefDualAverage::new(0.75, 10.0, 0.05, std::f64::consts::PI, obs.step_size);
+                    adam = nuts_rs::verif::Adam::new(nuts_rs::verif::AdamOptions::default(), obs.step_size);
                     // (the estimator had been advanced before the re-initialisation replaced it)
                 } else {
                     da.advance(if r.late { sym } else { mean }, 0.8);
+                    adam.advance(if r.late { sym } else { mean }, 0.8);
                     let is_last = d + 1 == o.num_tune;
-                    let expect = if is_last { da.step_bar() } else { da.step() };
+                    let expect = if o.adam { adam.current_step_size() } else if is_last { da.step_bar() } else { da.step() };
                     if !mc_core::rel_close(obs.step_size, expect, 1e-12, 0.0) {
                         bad(
                             "step-size-does-not-follow-dual-averaging",
@@ -407,7 +415,7 @@ fn run_word(o: &Opts, word: &[Ev], p: &mut Partial, check_step_size: bool) -> Op
                         return None;
                     }
                 }
-            } else if !mc_core::rel_close(obs.step_size, da.step_bar(), 1e-12, 0.0) {
+            } else if !mc_core::rel_close(obs.step_size, if o.adam { adam.current_step_size() } else { da.step_bar() }, 1e-12, 0.0) {
                 bad("post-warmup-step-size", "C06", format!("{} vs averaged {}", obs.step_size, da.step_bar()), p);
                 return None;
             }
@@ -592,7 +600,11 @@ pub fn run(tier: Tier, _replay: Option<String>) -> i32 {
                     update_freq: uf,
                     growth: g,
                     bfs_only: false,
+                    adam: false,
                 });
+                if nt <= n_all && tier == Tier::Quick || nt <= 6 {
+                    opts.push(Opts { lowrank, num_tune: nt, early_window: ew, step_size_window: ssw, switch_freq: sf, early_switch_freq: esf, update_freq: uf, growth: g, bfs_only: false, adam: true });
+                }
             }
         }
         // the full product of small option alphabets, de-duplicated search only
@@ -604,7 +616,7 @@ pub fn run(tier: Tier, _replay: Option<String>) -> i32 {
                         for uf in [1u64, 2, 5] {
                             for g in [1.0, 1.5] {
                                 for nt in 1..=max_nt_product {
-                                    opts.push(Opts { lowrank, num_tune: nt, early_window: ew, step_size_window: ssw, switch_freq: sf, early_switch_freq: esf, update_freq: uf, growth: g, bfs_only: true });
+                                    opts.push(Opts { lowrank, num_tune: nt, early_window: ew, step_size_window: ssw, switch_freq: sf, early_switch_freq: esf, update_freq: uf, growth: g, bfs_only: true, adam: false });
                                 }
                             }
                         }
